@@ -627,3 +627,43 @@ pub(crate) fn gen_permutation(size: usize) -> Vec<usize> {
 
     ret
 }
+
+/// Verification hooks (feature `strand_verif` only): public access to the
+/// verifier's challenge functions and to the permutation sampler, forwarding
+/// unchanged.
+#[cfg(feature = "strand_verif")]
+pub mod verif {
+    use super::*;
+
+    pub fn us<C: Ctx>(
+        shuffler: &Shuffler<C>,
+        es: &[Ciphertext<C>],
+        e_primes: &[Ciphertext<C>],
+        cs: &[C::E],
+        n: usize,
+        label: &[u8],
+    ) -> Result<Vec<C::X>, StrandError> {
+        shuffler.shuffle_proof_us(es, e_primes, cs, n, label)
+    }
+
+    pub fn challenge<C: Ctx>(
+        shuffler: &Shuffler<C>,
+        es: &[Ciphertext<C>],
+        e_primes: &[Ciphertext<C>],
+        proof: &ShuffleProof<C>,
+        label: &[u8],
+    ) -> Result<C::X, StrandError> {
+        let y = YChallengeInput {
+            es,
+            e_primes,
+            cs: &proof.cs.0,
+            c_hats: &proof.c_hats.0,
+            pk: shuffler.pk,
+        };
+        shuffler.shuffle_proof_challenge(&y, &proof.t, label)
+    }
+
+    pub fn gen_permutation(size: usize) -> Vec<usize> {
+        super::gen_permutation(size)
+    }
+}
